@@ -1156,7 +1156,12 @@ expr0:
                     yyerror(buf);
                 }
 
-                $$->l.expr = do_promotions(r, l->type);
+                /* 'int x; x op= <float>': do not truncate the operand, the operator truncates the result
+                 * (so that x op= y is x = x op y) */
+                if ($2 != F_ASSIGN && l->type == TYPE_NUMBER && r->type == TYPE_REAL)
+                    $$->l.expr = r;
+                else
+                    $$->l.expr = do_promotions(r, l->type);
             }
     |   error L_ASSIGN expr0
             {
